@@ -3,6 +3,8 @@ package serix
 import (
 	"reflect"
 	"strings"
+	"unicode"
+	"unicode/utf8"
 
 	"github.com/iotaledger/hive.go/ierrors"
 )
@@ -135,8 +137,13 @@ func FieldKeyString(str string) string {
 		str = strings.ReplaceAll(str, keyword, string(keyword[0])+strings.ToLower(keyword)[1:])
 	}
 
-	// first letter lower case
-	return strings.ToLower(str[:1]) + str[1:]
+	// first letter lower case (the first letter, not the first byte: the name can start with a letter outside ASCII)
+	firstLetter, firstLetterSize := utf8.DecodeRuneInString(str)
+	if firstLetterSize == 0 {
+		return str
+	}
+
+	return string(unicode.ToLower(firstLetter)) + str[firstLetterSize:]
 }
 
 // addressOf returns a pointer to the given value as an interface (nil if the value is a pointer or an interface
